@@ -321,6 +321,7 @@ func streamZones(c *ctx) {
 					return "zero"
 				}
 				res := fieldsOf(t)
+				var baseStatus *time.Time // what GetStatus reports for a controller that is not configured
 				// the status system date + time recombination must agree with the wire date-time
 				if y >= 1969 && y <= 2068 {
 					reply := messages.GetStatusResponse{SerialNumber: 405419896}
@@ -331,8 +332,12 @@ func streamZones(c *ctx) {
 					drv.Datagrams = [][]byte{b}
 					if st, err := u.GetStatus(405419896); err != nil {
 						res += " STATUS:err"
-					} else if !time.Time(st.SystemDateTime).Equal(t) {
-						res += " STATUS:" + fieldsOf(time.Time(st.SystemDateTime))
+					} else {
+						base := time.Time(st.SystemDateTime)
+						baseStatus = &base
+						if !time.Time(st.SystemDateTime).Equal(t) {
+							res += " STATUS:" + fieldsOf(time.Time(st.SystemDateTime))
+						}
 					}
 					// ... and so must the same datagram delivered as an event through the listener
 					ul, dl := newClient(nil, types.BroadcastAddr{})
@@ -371,6 +376,23 @@ func streamZones(c *ctx) {
 						res += " GETTIME:err"
 					} else if f := civilOf(time.Time(got.DateTime)); f != civilOf(t) {
 						res += " GETTIME:" + f
+					}
+					// ... and the status system date-time, whichever zone the controller is configured with
+					if baseStatus != nil {
+						for _, z := range otherZones {
+							us, ds := newClient([]uhppote.Device{{Name: "z", DeviceID: dev, Protocol: "udp", TimeZone: z}}, types.BroadcastAddr{})
+							b, _ := codec.Marshal(messages.GetStatusResponse{SerialNumber: dev})
+							copy(b[51:54], bcdBytes(fmt.Sprintf("%02d%02d%02d", y%100, mo, d)))
+							copy(b[37:40], bcdBytes(fmt.Sprintf("%02d%02d%02d", h, mi, s)))
+							ds.Datagrams = [][]byte{b}
+							if st, err := us.GetStatus(dev); err != nil {
+								res += " GETSTATUS:err"
+								break
+							} else if f := civilOf(time.Time(st.SystemDateTime)); f != civilOf(*baseStatus) {
+								res += " GETSTATUS:" + f // the zone a controller is configured with changes what its status reports
+								break
+							}
+						}
 					}
 					be, _ := codec.Marshal(messages.GetEventResponse{SerialNumber: dev, Index: 17, Type: 1})
 					copy(be[20:27], bcdBytes(fmt.Sprintf("%04d%02d%02d%02d%02d%02d", y, mo, d, h, mi, s)))
